@@ -53,6 +53,10 @@ add("C16", "vf-sim", "property-based testing on tokio's paused (virtual) clock w
 add("C13", "vf-sim", "stateful property-based testing in a deterministic simulator: the real CopyBidirectional future against a scripted AsyncBufRead+AsyncWrite (partial reads/writes, Pending points with and without wake-ups, EOF and errors at every position) and a real peer application",
     "The bridge future is driven in simnet against a generated script of the local side and a generated peer (data, shutdown, drop, late reader) under generated options/back-pressure/schedule: bytes relayed in both directions must satisfy the content function, the bridge's Push frames obey the window rule, local EOF produces Finish, the peer's Finish shuts the local side down, completion returns the true byte counts, and after any failed local operation the future must be complete with an error at quiescence (no unrelated traffic needed).", SIM_NOTE)
 
+add("C12", "overlay-c12", "randomised concurrency testing (shuttle: random and PCT schedulers over all atomic/lock/waker operations) of generated scenarios against a blocking-waiter deadlock oracle and a credit-conservation invariant",
+    "The crate's own cfg(loom) shim is pointed at a shuttle-backed facade in a scratch copy, so the credit counter, the closed flag and the writer waker of the unmodified stream.rs/lib.rs become scheduling points. 79 (quick) scenarios = initial credit 0..2 x 1..3 frames wanted x every short list of acknowledge(n)/close operations performed by another thread; each is explored under ~14k (quick) / 160k (thorough) random and PCT schedules. The writer thread sleeps on its wake-up flag whenever a poll returns Pending, so a lost wake-up is a detected deadlock with a replayable schedule; at the end credit left == initial + grants - frames sent.",
+    "Trusted: shuttle's schedulers and its sequentially consistent execution model (C11 weak-memory reorderings of the Relaxed accesses are NOT explored - stated limit), the mutex-based AtomicWaker of the facade. Random exploration, no coverage guarantee.")
+
 ENG = {
  "vf-pure": ("/verif/harness/vf-pure", "proptest + bounded-exhaustive enumeration against reference codecs/models (E1)"),
  "vf-sim": ("/verif/harness/vf-sim", "simnet: deterministic simulator around the real penguin-mux crate (E2) and tokio paused-clock engine (E3)"),
